@@ -536,6 +536,9 @@ func GetServiceRequest(serviceType uint8) []byte {
 	serviceRequest.SetAMFPointer(0)
 	serviceRequest.SetTMSI5G([4]uint8{0, 0, 0, 1})
 	serviceRequest.TMSI5GS.SetLen(7)
+	// type of identity 5G-S-TMSI; bits 8..5 of that octet are 1111 (TS 24.501 figure 9.11.3.4.5)
+	serviceRequest.TMSI5GS.SetTypeOfIdentity(nasMessage.MobileIdentity5GSType5gSTmsi)
+	serviceRequest.TMSI5GS.Octet[0] |= 0xf0
 	switch serviceType {
 	case nasMessage.ServiceTypeMobileTerminatedServices:
 		serviceRequest.AllowedPDUSessionStatus = new(nasType.AllowedPDUSessionStatus)
